@@ -549,7 +549,7 @@ pub fn check_trunc_case(case: &TruncCase, mon: &mut Mon) {
     let k = case.k.min(case.text.len());
     let prefix = &case.text[..k];
     let lexname = token_class_at(&case.text, k);
-    let mut judge = |src: &'static str, r: &PRes, mon: &mut Mon| {
+    let judge = |src: &'static str, r: &PRes, mon: &mut Mon| {
         mon.fold(r);
         match r {
             Ok(_) => mon.count("c19.prefix_ok"),
